@@ -30,6 +30,19 @@ func c10Scenarios(tier string) []*hist.Scenario {
 			Env: []string{"compact", "compactF"}, E: e, Cfg: never,
 		})
 	}
+	// push-only syncs of stale clients: edit, forced compaction, push-only sync,
+	// full sync (K2 Y3 incl. push-only, one compaction: 7.9k histories per kind)
+	for _, f := range fams[:5] {
+		n := 1 // 0.8k histories per kind; two clients 8.6k
+		if tier == "thorough" {
+			n = 2
+		}
+		out = append(out, &hist.Scenario{
+			Name: fmt.Sprintf("c10/%s/%s/pushonly/N%dK2Y3E1", f.name, f.ops[0], n),
+			N:    n, Init: f.init, Alphabet: f.ops[:1], K: 2, Y: 3, PushOnly: true,
+			Env: []string{"compactF"}, E: 1, Cfg: never,
+		})
+	}
 	// Upper bounds before no-effect pruning: K2Y2E1D1 12.8k histories, K1Y1E2D2
 	// 36.7k, K1Y2E2D2 260k, K2Y2E1D2 165k, K2Y2E2D2 1.1M (count10_test.go).
 	for _, f := range fams {
@@ -152,6 +165,22 @@ func c10After(x *hist.Exec, i int) {
 			}
 			if n := c10LogLen(x); n != st.preLog {
 				add("stale-sync-stored", "stale-sync-stored", fmt.Sprintf("log length %d -> %d", st.preLog, n))
+			}
+		}
+	case "po":
+		if step.NoEffect {
+			return
+		}
+		if st.stale[e.C] {
+			// a push-only sync is not told about the new generation (it pulls
+			// nothing); it must not store anything, and the client stays stale:
+			// its next full sync is still refused (checked at that "s")
+			if step.Err != "" && strings.Contains(step.Err, "epoch") {
+				x.Viol = x.Viol[:step.ViolFrom]
+				x.Reps[e.C].SyncErrs--
+			}
+			if n := c10LogLen(x); n != st.preLog {
+				add("stale-sync-stored", "stale-sync-stored:push-only", fmt.Sprintf("log length %d -> %d", st.preLog, n))
 			}
 		}
 	case "dt":
